@@ -73,6 +73,11 @@ func ruleSlots(r *Rule) []**Expr {
 		e := *p
 		walk(&e.L)
 		walk(&e.R)
+		if e.Op == "member" && e.L != nil {
+			for i := range e.L.Args {
+				walk(&e.L.Args[i])
+			}
+		}
 		for i := range e.Args {
 			walk(&e.Args[i])
 		}
@@ -192,6 +197,14 @@ func mutateRule(r *rand.Rand, rule *Rule) (*Rule, string, []probeTarget) {
 		case e.Op == "lit" && e.Lit.K == TBool:
 			e.Lit.B = !e.Lit.B
 			return m, "boolean constant", targets
+		case e.Op == "member":
+			// another member of the same method result
+			if e.Fn == "X" {
+				e.Fn, e.GK = "N", int(reflect.Int32)
+			} else {
+				e.Fn, e.GK = "X", int(reflect.Int64)
+			}
+			return m, "member of a method result", targets
 		case e.Op == "not":
 			*p = e.L
 			return m, "negation removed", targets
